@@ -150,6 +150,11 @@ class PolyCtx:
                 xo = [o for o in d.ops if o is not mk][0] if d.ops[0] != d.ops[1] else mk
                 x = self.val(xo, depth + 1)
                 r = x - self.div(x, int(mk) + 1) * (int(mk) + 1)
+            elif d.op == 'and' and any(INT.match(o) and int(o) < -1 and (-int(o)) & (-int(o) - 1) == 0 for o in d.ops):
+                # x & ~(2^k - 1) == 2^k * (x / 2^k): the low bits cleared
+                mk = [o for o in d.ops if INT.match(o) and int(o) < -1 and (-int(o)) & (-int(o) - 1) == 0][0]
+                xo = [o for o in d.ops if o is not mk][0]
+                r = self.div(self.val(xo, depth + 1), -int(mk)) * (-int(mk))
             elif d.op == 'select' and d.res in self.choice:
                 r = self.val(self.choice[d.res], depth + 1)
             elif d.op == 'select' and d.ty != 'i1':
